@@ -46,7 +46,7 @@ const c13RunBudgetUS = 40000
 func (t *c13Type) dim(v int) [3]int {
 	if d, ok := c13Dims[t.name]; ok && v >= 0 && v < len(d) {
 		x := d[v]
-		x[1] = x[1] * 10 / 3 // the table counts the first block of element lies (30 variants); there are 100 by now
+		x[1] = x[1] * 14 / 3 // the table counts the first block of element lies (30 variants); there are about 140 by now
 		return x
 	}
 	return [3]int{256, 300, 300}
@@ -574,7 +574,26 @@ func init() {
 			}
 			return b
 		}
-		return &c13Art{data: wrap(der), inner: der, wrap: wrap, wrapTiny: func(in []byte) []byte {
+		// a hostile CA: blobs VALIDLY encrypted to the temporary key (C3 authenticates the plaintext, so no alteration of
+		// an honest blob can change its length) around plaintexts of other lengths than the 96 octets X || Y || d
+		var byz []c13Byz
+		for _, n := range []int{1, 2, 31, 32, 33, 63, 64, 65, 95, 97, 100, 128} {
+			hp := derive([]byte{byte(n), byte(v)}, "c13 escrow byz", n)
+			hct, err := sm2.Encrypt(rand.Reader, &tmp.PublicKey, hp, nil)
+			if err != nil {
+				return nil, err
+			}
+			hder, err := asn1.Marshal(struct {
+				Version      int
+				EncryptedKey []byte
+			}{1, hct[1:]})
+			if err != nil {
+				return nil, err
+			}
+			// the entry point refuses texts below 268 octets up front: trailing octets behind the DER carry the blob over it
+			byz = append(byz, c13Byz{fmt.Sprintf("escrow blob around a %d-octet plaintext", n), wrap(append(hder, make([]byte, 210)...))})
+		}
+		return &c13Art{data: wrap(der), inner: der, wrap: wrap, byz: byz, wrapTiny: func(in []byte) []byte {
 			// the entry point refuses everything below 268 octets up front: tiny DER stubs travel padded inside the base64 layer
 			return wrap(append(append([]byte{}, in...), make([]byte, 210)...))
 		}, cons: []c13Cons{
